@@ -40,6 +40,7 @@ Inductive stmt :=
 | SPanic (v : pval)              (* panic(v) / a failing operation *)
 | SReturn                        (* return *)
 | SGoexit                        (* runtime.Goexit() *)
+| SRetR                          (* return r  in a function with an UNNAMED result: the value is fixed here *)
 | SBlock.                        (* req <- true; <-ack : the goroutine really blocks and is resumed; no effect *)
 
 Definition program := list (list stmt).
@@ -72,6 +73,12 @@ Inductive dcall :=
 Definition is_defer (s : stmt) : bool :=
   match s with SDefer _ | SDeferClo _ => true | _ => false end.
 Definition has_defer (b : list stmt) : bool := existsb is_defer b.
+
+(* a top-level function has an unnamed result iff its body returns with [SRetR] (the generator ends every
+   such body with one).  Every top-level activation owns two cells: c for (x, r) and c+1 whose second
+   component is the value fixed by `return r` (0 until then: what a recovered panic leaves). *)
+Definition is_retr (s : stmt) : bool := match s with SRetR => true | _ => false end.
+Definition unnamed (b : list stmt) : bool := existsb is_retr b.
 
 (* variable cells: activation id -> (x, r) *)
 Definition cells := list (nat * (Z * Z)).
@@ -122,6 +129,8 @@ Definition s_setcell (i : nat) (v : Z * Z) (g : sglobal) : sglobal :=
   {| s_trace := s_trace g; s_cells := cell_set (s_cells g) i v; s_next := s_next g; s_gh := s_gh g |}.
 Definition s_fresh (g : sglobal) : nat * sglobal :=
   (s_next g, {| s_trace := s_trace g; s_cells := s_cells g; s_next := S (s_next g); s_gh := s_gh g |}).
+Definition s_fresh2 (g : sglobal) : nat * sglobal :=
+  let '(c, g1) := s_fresh g in let '(_, g2) := s_fresh g1 in (c, g2).
 Definition s_setgh (h : ghost) (g : sglobal) : sglobal :=
   {| s_trace := s_trace g; s_cells := s_cells g; s_next := s_next g; s_gh := h |}.
 Definition gh_set_infl (l : list nat) (h : ghost) := {| gh_infl := l; gh_blk := gh_blk h; gh_repl := gh_repl h; gh_a := gh_a h; gh_b := gh_b h |}.
@@ -153,12 +162,12 @@ Fixpoint spec_exec (fuel : nat) (p : program) (cell : nat) (ss : list stmt) (l :
         continue {| l_rk := None; l_act := l_act l; l_dl := l_dl l |} (s_emit (ERec (l_rk l)) g)
     | SCall f =>
         let '(x, r) := cell_get (s_cells g) cell in
-        let '(c, g1) := s_fresh g in
+        let '(c, g1) := s_fresh2 g in
         match spec_fun fuel' p c (body_of p f) None (s_setcell c (x, 0) g1) with
         | None => None
         | Some (MNormal, _, g2) =>
             let '(x', r') := cell_get (s_cells g2) cell in
-            continue l (s_setcell cell (snd (cell_get (s_cells g2) c), r') g2)
+            continue l (s_setcell cell (snd (cell_get (s_cells g2) (if unnamed (body_of p f) then S c else c)), r') g2)
         | Some (MPanic v, _, g2) => Some (OPanic v, l, g2)
         | Some (MGoexit, _, g2) => Some (OGoexit, l, g2)
         end
@@ -178,6 +187,7 @@ Fixpoint spec_exec (fuel : nat) (p : program) (cell : nat) (ss : list stmt) (l :
                  (s_emit (EPush (l_act l) (length (l_dl l))) g)
     | SPanic v => Some (OPanic v, l, g)
     | SReturn => Some (OReturn, l, g)
+    | SRetR => let '(x, r) := cell_get (s_cells g) cell in Some (OReturn, l, s_setcell (S cell) (0, r) g)
     | SGoexit => Some (OGoexit, l, g)
     | SBlock =>
         continue l (s_setgh (gh_on_block (s_gh g)) g)
@@ -218,7 +228,7 @@ with spec_defers (fuel : nat) (p : program) (act : nat) (mode : smode) (gx : boo
         match d with
         | DClo b cell => spec_fun fuel' p cell b rk g
         | DFun f arg =>
-            let '(c, g1) := s_fresh g in
+            let '(c, g1) := s_fresh2 g in
             spec_fun fuel' p c (body_of p f) rk (s_setcell c (arg, 0) g1)
         end in
       match res with
@@ -309,6 +319,9 @@ Definition j_set_exit b (s : jstate) := {| j_trace := j_trace s; j_cells := j_ce
   j_panicStack := j_panicStack s; j_deferStack := j_deferStack s; j_lists := j_lists s; j_psd := j_psd s;
   j_pv := j_pv s; j_offset := j_offset s; j_exit := b |}.
 
+Definition j_fresh2 (s : jstate) : nat * jstate :=
+  let '(c, s1) := j_fresh s in let '(_, s2) := j_fresh s1 in (c, s2).
+
 Fixpoint list_get (ls : list (nat * list dcall)) (i : nat) : list dcall :=
   match ls with
   | [] => []
@@ -378,13 +391,13 @@ Fixpoint impl_exec (vr : variant) (fuel : nat) (p : program) (d : Z) (cell : nat
     | SRecover => let '(v, s1) := js_recover d s in continue (j_emit (ERec v) s1)
     | SCall f =>
         let '(x, r) := cell_get (j_cells s) cell in
-        let '(c, s1) := j_fresh s in
+        let '(c, s1) := j_fresh2 s in
         match impl_fun vr fuel' p (d + 1) c (body_of p f) (j_setcell c (x, 0) s1) with
         | None => None
         | Some (JThrow e, s2) => Some (JThrow e, s2)
         | Some (_, s2) =>
             let '(x', r') := cell_get (j_cells s2) cell in
-            continue (j_setcell cell (snd (cell_get (j_cells s2) c), r') s2)
+            continue (j_setcell cell (snd (cell_get (j_cells s2) (if unnamed (body_of p f) then S c else c)), r') s2)
         end
     | SCallClo b =>
         match impl_fun vr fuel' p (d + 1) cell b s with
@@ -411,6 +424,9 @@ Fixpoint impl_exec (vr : variant) (fuel : nat) (p : program) (d : Z) (cell : nat
         | Some (_, s2) => continue s2
         end
     | SReturn => Some (JReturn, s)
+    | SRetR =>
+        (* $24r = r; return $24r;  (the catch clause of such a function returns the zero value) *)
+        let '(x, r) := cell_get (j_cells s) cell in Some (JReturn, j_setcell (S cell) (0, r) s)
     | SGoexit =>
         Some (JThrow XNull, j_set_exit (Some (if v_goexit_rethrow vr then length (j_deferStack s) else O)) s)
     | SBlock => continue s
@@ -535,7 +551,7 @@ with impl_loop (vr : variant) (fuel : nat) (p : program) (d : Z) (cur : option n
             match c with
             | DClo b cell => impl_fun vr fuel' p (d + 1) cell b s1
             | DFun f arg =>
-                let '(c', s1') := j_fresh s1 in
+                let '(c', s1') := j_fresh2 s1 in
                 impl_fun vr fuel' p (d + 1) c' (body_of p f) (j_setcell c' (arg, 0) s1')
             end in
           match res with
